@@ -265,17 +265,17 @@ pub fn run(ctx: &Ctx) -> i32 {
     // every subset of the client's first K datagrams of the second connection dropped
     let k = ctx.tier.pick(6, 9) as u32;
     let configs = ctx.tier.pick(6, 24);
-    let g = Group { name: "enum-early-loss", cases: (1u64 << k) * configs, budget_s: ctx.tier.pick(30.0, 900.0), exhaustive: true };
+    let g = Group { name: "enum-early-loss", cases: (1u64 << k) * configs, budget_s: ctx.tier.pick(30.0, 360.0), exhaustive: true };
     run_group(ctx, &mut rep, &g, |i, _seed, trace| {
         let cfg = i >> k;
         let mask = i & ((1 << k) - 1);
         case(super::case_seed(ctx, "enum-early-loss-cfg", cfg), Lane::Null, trace, Some((mask, k)))
     });
-    let g = Group { name: "random-null", cases: ctx.tier.pick(2500, 200_000), budget_s: ctx.tier.pick(25.0, 900.0), exhaustive: false };
+    let g = Group { name: "random-null", cases: ctx.tier.pick(2500, 200_000), budget_s: ctx.tier.pick(25.0, 360.0), exhaustive: false };
     run_group(ctx, &mut rep, &g, |_, seed, trace| case(seed, Lane::Null, trace, None));
     #[cfg(feature = "real")]
     {
-        let g = Group { name: "random-rustls", cases: ctx.tier.pick(250, 20_000), budget_s: ctx.tier.pick(20.0, 600.0), exhaustive: false };
+        let g = Group { name: "random-rustls", cases: ctx.tier.pick(250, 20_000), budget_s: ctx.tier.pick(20.0, 240.0), exhaustive: false };
         run_group(ctx, &mut rep, &g, |_, seed, trace| case(seed, Lane::Real, trace, None));
     }
     finish(
